@@ -149,6 +149,10 @@ class SMGen(Gen):
         cross=define_cross(sm_cross)
         r=execute(answers_count=sample_count, maximum_trials=maximum_trials)
 
+        # The encoding above does not cover every way that a block arrives at its number of trials
+        if any(len(vals) != block.trials_per_sample() for a in r for vals in a.values()):
+            _cexit("SMGen does not support the way this block reaches its number of trials.")
+
         samples=SamplingResult(r,{})
 
         return samples
